@@ -1354,6 +1354,9 @@ def m_try_branch(eng, st, fr, t, name, rname, args):
 
 def _err_ty(s):
     """error type of a `Result<T, E>` type string (top-level second argument)"""
+    s = str(s)
+    if s.startswith("std::result::Result<"):
+        s = "core" + s[3:]
     if not s.startswith("core::result::Result<"):
         return None
     inner = s[len("core::result::Result<"):-1]
@@ -1439,8 +1442,8 @@ def m_from_residual(eng, st, fr, t, name, rname, args):
     v = eng.resolve(st, args[0])
     if isinstance(v, EnumV) and v.name == "Err":
         g = (t or {}).get("callee", {}).get("gargs", [])
-        if len(g) == 2 and _err_ty(g[0]) is not None and _err_ty(g[0]) == _err_ty(g[1]):
-            return mk_err(v.fields.get(0, TOP))  # identity conversion
+        if len(g) == 2 and _err_ty(g[0]) is not None and (_err_ty(g[0]) == _err_ty(g[1]) or (_err_ty(g[1]) is not None and _norm_ty(_err_ty(g[0])) == _norm_ty(_err_ty(g[1])))):
+            return mk_err(v.fields.get(0, TOP))  # identity conversion (the same type, possibly named through another crate)
         if len(g) == 2 and _err_ty(g[0]) and _err_ty(g[1]):
             w = workspace_from(eng, _err_ty(g[1]), _err_ty(g[0]), v.fields.get(0, TOP))
             if w is not None:
